@@ -536,6 +536,61 @@ def configs(rule, rng=None, all_=False, k=1):
 _CYCLE = {}
 
 
+def coalsurplusprofile(rng):
+    """a solid coalition {A, X, Y} worth two quotas whose votes sit almost entirely with A: X and Y trail the field, together they
+    have fewer votes than the next candidate Z but more once A's pending surplus reaches them (sure-loser tests must count it)"""
+    if rng.random() < 0.35:
+        # twin form: two coalition members over the quota at once, the third needs BOTH pending surpluses to pass Z
+        for _ in range(300):
+            q = rng.randint(15, 40)
+            sa, sb = rng.randint(2, q // 2), rng.randint(2, q // 2)
+            x = rng.randint(2, max(2, q // 3))
+            z = 2 * q - sa - sb - x
+            if x + max(sa, sb) < z < x + sa + sb and z < q and z > 0:
+                nc = 4
+                ids = [1, 2, 3, 4]
+                rng.shuffle(ids)
+                A, B, X, Z = ids
+                lines = [(q + sa, [A, B, X, Z]), (q + sb, [B, A, X, Z]), (x, [X, A, B, Z]), (z, [Z])]
+                rng.shuffle(lines)
+                tie = [1, 2, 3, 4]
+                rng.shuffle(tie)
+                return dict(nc=nc, seats=3, lines=lines, tie=tie, withdrawn=[], undeclared=[], eqlines=[])
+    s = rng.choice([2, 3, 3])
+    q = rng.randint(8, 16)
+    n = q * (s + 1)
+    nc = rng.randint(5, 6) if s == 3 else rng.randint(4, 5)
+    ids = list(range(1, nc + 1))
+    rng.shuffle(ids)
+    A, X, Y, Z = ids[:4]
+    rest = ids[4:]
+    x, y = rng.randint(1, 3), rng.randint(1, 3)
+    coal = 2 * q + rng.randint(1, 2)
+    a = coal - x - y
+    sur = a - q
+    z = rng.randint(x + y + 1, max(x + y + 1, min(x + y + sur - 1, q - 1)))
+    left = n - coal - z
+    lines = []
+    k = rng.randint(1, a - 1)
+    lines += [(k, [A, X, Y]), (a - k, [A, Y, X]), (x, [X, A, Y]), (y, [Y, X, A]), (z, [Z] + (rest[:1] if rest and rng.random() < 0.5 else []))]
+    if rest:
+        m = left
+        for i, c in enumerate(rest):
+            v = m if i == len(rest) - 1 else rng.randint(0, m)
+            if v:
+                lines.append((v, [c] + ([Z] if rng.random() < 0.5 else [])))
+            m -= v
+    elif left > 0:
+        lines.append((left, [Z]))
+    lines = [(m, r) for m, r in lines if m > 0]
+    if sum(m for m, _ in lines) < nc:
+        lines.append((nc, [Z]))
+    rng.shuffle(lines)
+    tie = list(range(1, nc + 1))
+    rng.shuffle(tie)
+    return dict(nc=nc, seats=s, lines=lines, tie=tie, withdrawn=[], undeclared=[], eqlines=[])
+
+
 def manycandsprofile(rng):
     "more than 256 candidates (two-byte candidate ids in the profile's arrays): the contest is among candidates numbered above 256 and one below"
     nc = rng.randint(260, 266)
@@ -549,4 +604,4 @@ def manycandsprofile(rng):
     return dict(nc=nc, seats=2, lines=lines, tie=tie, withdrawn=[], undeclared=[], eqlines=[])
 
 
-SHAPES.update(thirds=thirdsprofile, manycands=manycandsprofile)
+SHAPES.update(thirds=thirdsprofile, manycands=manycandsprofile, coalsurplus=coalsurplusprofile)
